@@ -111,7 +111,8 @@ def member_class(beh):
     return type("Member_" + beh, (MemberSolver,), {"BEHAVIOUR": beh})
 
 
-SCRIPTS = ("solve", "solve+model", "solve+value", "solve-push-solve", "is_sat", "solve-twice", "is_sat-add-solve")
+SCRIPTS = ("solve", "solve+model", "solve+value", "solve-push-solve", "is_sat", "solve-twice", "is_sat-add-solve",
+           "push-is_sat-pop-solve")
 # scripts with their own configurations (see configs): assumptions; a failing second query followed by get_model
 EXTRA_SCRIPTS = ("solve-assume", "solve-failsolve-model", "failed-is_sat-then-solve")
 
@@ -140,6 +141,21 @@ def make_body(env, names, script, exit_on_exception, unsat):
                 p.add_assertion(m.And(m.Not(a), m.Not(b)))
                 obs["verdict"] = p.solve()
                 obs["n_assertions"] = len(p.assertions)
+                return obs
+            if script == "push-is_sat-pop-solve":
+                # push, assert, a one-shot query (leaves a deferred pop), then the user's own pop at once: the
+                # pushed assertion must be gone and the next assertion must count
+                p.push()
+                p.add_assertion(m.Not(a))
+                obs = {"query": p.is_sat(b)}
+                p.pop()
+                obs["n_assertions"] = len(p.assertions)
+                p.add_assertion(a)
+                obs["verdict"] = p.solve()
+                if obs["verdict"]:
+                    model = p.get_model()
+                    val = {"a": model.get_py_value(a), "b": model.get_py_value(b)}
+                    obs["model_ok"] = bool(holds(m.And(base, a), val))
                 return obs
             if script == "solve-assume":
                 # the query is assertions + assumptions; the assumptions do not persist
@@ -241,6 +257,11 @@ def expected(script, unsat, behs=()):
         return {"verdict": True, "verdict2": True, "model": "ok"}
     if script == "is_sat-add-solve":
         return {"query": sat, "verdict": False, "n_assertions": 2}
+    if script == "push-is_sat-pop-solve":
+        e = {"query": sat, "n_assertions": 1, "verdict": sat}
+        if sat:
+            e["model_ok"] = True
+        return e
     e = {"verdict": sat}
     if script in ("solve+model", "solve+value") and sat:
         e["model_ok"] = True
@@ -345,11 +366,11 @@ def configs(ctx):
                             continue
                         if n == 3 and script not in ("solve", "solve+model"):
                             continue
-                        two = script in ("solve-push-solve", "solve-twice", "is_sat-add-solve")
+                        two = script in ("solve-push-solve", "solve-twice", "is_sat-add-solve", "push-is_sat-pop-solve")
                         if q and two and (eoe or any(b in ("unknown", "exit") for b in behs)):
                             continue
                         bound = (2 if two else None) if n == 2 else 3
-                        if q and script == "solve-push-solve":
+                        if q and script in ("solve-push-solve", "push-is_sat-pop-solve"):
                             bound = 1          # three solves per run: 16 times more schedules than one solve
                         if not q and two:
                             bound = 3 if script == "solve-twice" else 2
